@@ -109,7 +109,22 @@ class _T(ast.NodeTransformer):
         # logging calls get empty bodies (their arguments are not even evaluated)
         if (self.stub_logging and isinstance(f, ast.Attribute) and f.attr in _LOG_METHODS and isinstance(f.value, ast.Name)
                 and f.value.id in _LOG_NAMES):
-            return ast.copy_location(ast.Constant(None), node)
+            # nothing is formatted or emitted, but plain argument expressions are still evaluated (Python evaluates
+            # them before the call: an index or attribute error in a log argument is real behaviour); string
+            # building (f-strings, %, .format) is dropped - it would concretise symbolic values
+            keep = []
+            for a in node.args:
+                if isinstance(a, (ast.Constant, ast.JoinedStr, ast.Name)):
+                    continue
+                if isinstance(a, ast.BinOp) and isinstance(a.op, ast.Mod):
+                    continue
+                if (isinstance(a, ast.Call) and isinstance(a.func, ast.Attribute) and a.func.attr == "format"):
+                    continue
+                if isinstance(a, (ast.Subscript, ast.Attribute)):
+                    keep.append(self.visit(a))
+            if not keep:
+                return ast.copy_location(ast.Constant(None), node)
+            return ast.copy_location(ast.Tuple(elts=keep, ctx=ast.Load()), node)
         self.generic_visit(node)
         if (isinstance(f, ast.Attribute) and isinstance(f.value, ast.Constant)
                 and isinstance(f.value.value, (str, bytes))):
